@@ -49,7 +49,7 @@ theorem update_some {k : Kind} {st st' : CState} {env : Env} {data : Item} {nefO
     (h : update k st env data nefOk = some st') :
     updateAccess k env = some true ∧ nefOk = true ∧ checkVersion st.ver = true ∧
       st'.ver = common_Version ∧
-      ∃ args, appendVersion data st.ver = some args ∧ migrate k st.ver args env.height st.store = some st'.store := by
+      ∃ args, appendVersion data st.ver = some args ∧ migrate k st.ver args env st.store = some st'.store := by
   unfold update at h
   cases ha : updateAccess k env with
   | none => rw [ha] at h; cases h
@@ -73,7 +73,7 @@ theorem update_some {k : Kind} {st st' : CState} {env : Env} {data : Item} {nefO
           simp only at h
           by_cases hc : checkVersion st.ver = true
           · simp only [hc, if_true] at h
-            cases hm : migrate k st.ver args env.height st.store with
+            cases hm : migrate k st.ver args env st.store with
             | none => rw [hm] at h; cases h
             | some s' =>
               rw [hm] at h
@@ -374,43 +374,5 @@ theorem switchToNotary_pending {extra : List Bytes} {s : Store} {h : Int} {nv : 
 /-- `getBallots` looks at the `ballots` item only -/
 theorem getBallots_congr {s t : Store} (h : get s voteKey = get t voteKey) : getBallots s = getBallots t := by
   unfold getBallots; rw [h]
-
-/-- the modelled paths of the Alphabet migration remove the `notary` flag at most -/
-theorem alphabetMigrate_spec {v h : Int} {args : List Item} {s s' : Store}
-    (hm : alphabetMigrate v args h s = some s') : s' = s ∨ s' = del s notaryKey := by
-  unfold alphabetMigrate at hm
-  by_cases hv : v < 17000
-  · simp only [hv, if_true] at hm
-    unfold alphabetSwitch at hm
-    cases h3 : args[3]? with
-    | none => rw [h3] at hm; cases hm
-    | some nameI =>
-      rw [h3] at hm
-      simp only at hm
-      cases hn : get s notaryKey with
-      | none =>
-        rw [hn] at hm
-        simp only at hm
-        cases nameI <;> first
-          | (simp at hm; done)
-          | (simp at hm; exact Or.inl hm.symm)
-      | some nv =>
-        rw [hn] at hm
-        simp only at hm
-        cases hb : bytesToBool nv with
-        | none => rw [hb] at hm; cases hm
-        | some flag =>
-          rw [hb] at hm
-          cases flag with
-          | false => simp only [Option.some.injEq] at hm; exact Or.inr hm.symm
-          | true =>
-            simp only at hm
-            split at hm
-            · split at hm
-              · cases hm
-              · split at hm <;> cases hm
-            · cases hm
-  · simp only [hv, if_false, Option.some.injEq] at hm
-    exact Or.inl hm.symm
 
 end NeoFS.Upgrade
